@@ -50,6 +50,22 @@ def v2_structured(rng, frame: bytes = GOOD_FRAME, device_id: int = 7):
     # markers
     for m in (b"\x5a\x5b", b"\x00\x00", b"\xaa\x23", b"\x83\x70", b"\x5a\x00", b"\xff\xff"):
         yield "v2-marker", m + P[2:]
+    # authentic packets (valid signature, valid frame) whose header fields hold boundary / meaningless values
+    for lab, kw in (("msg-type", "msg_type"), ("magic", "magic"), ("msg-id", "msg_id"), ("timestamp", "timestamp"), ("reserved", "reserved")):
+        width = {"msg_type": 2, "magic": 2, "msg_id": 4, "timestamp": 8, "reserved": 12}[kw]
+        for fill in (b"\x00", b"\xff", b"\x7f", b"\x80"):
+            yield "v2-authentic-header-field-" + lab, v2.build(frame, device_id, **{kw: fill * width})
+    good_ts = bytes([50, 30, 15, 12, 15, 6, 24, 20])          # centiseconds, s, min, h, day, month, yy, century
+    for pos in range(8):
+        for val in (0, 1, 12, 13, 23, 24, 29, 30, 31, 32, 59, 60, 61, 99, 100, 128, 255):
+            ts = bytearray(good_ts)
+            ts[pos] = val
+            yield "v2-authentic-header-field-timestamp", v2.build(frame, device_id, timestamp=bytes(ts))
+    for ts in (bytes([0, 0, 0, 0, 31, 2, 24, 20]), bytes([0, 0, 0, 0, 29, 2, 23, 20]), bytes([0, 0, 0, 0, 31, 4, 24, 20]),
+               bytes([99, 59, 59, 23, 31, 12, 99, 99]), bytes([0, 0, 0, 0, 1, 1, 0, 0]), bytes([0, 0, 0, 0, 1, 1, 1, 0])):
+        yield "v2-authentic-header-field-timestamp", v2.build(frame, device_id, timestamp=ts)
+    for did in (0, 1, 2 ** 48 - 1, 2 ** 64 - 1, 0x5A5A5A5A5A5A):
+        yield "v2-authentic-header-field-device-id", v2.build(frame, did)
     yield "v2-double", P + P
     yield "v2-trailing-garbage", P + rng.randbytes(9)
     yield "v2-leading-garbage", rng.randbytes(3) + P
@@ -58,7 +74,10 @@ def v2_structured(rng, frame: bytes = GOOD_FRAME, device_id: int = 7):
 
 
 def v2_random(rng):
-    k = rng.randrange(6)
+    k = rng.randrange(7)
+    if k == 6:
+        return "v2-authentic-header-field-random", v2.build(GOOD_FRAME, rng.getrandbits(64), msg_type=rng.randbytes(2), magic=rng.randbytes(2),
+                                                            msg_id=rng.randbytes(4), timestamp=rng.randbytes(8), reserved=rng.randbytes(12))
     if k == 0:
         return "random-bytes", rng.randbytes(rng.randint(0, 300))
     if k == 1:
